@@ -14,6 +14,7 @@ Scheduled calls (a goroutine of the harness, parked before the call):
                              → begin.mid | advance.loop | blocked | return:<result>
   state                      → nx=<nextTxnTs> td=<txnMark.doneUntil> tl=<txnMark.lastIndex>
                                rd=<readMark.doneUntil> rl=<readMark.lastIndex> ct=<len committedTxns>
+  reopen                     Close + Open of the same directory (every transaction must be closed)
   seq | sched | stress …     case headers / the free-running validation run (→ ok)
 
 Every op runs micro-steps of `NoKV.Snap.step` — the function the theorems of Props/C05 are about;
@@ -47,6 +48,8 @@ structure DSt where
   doneOk : List Nat := []         -- Commit returned ok
   specs : List (Nat × TSpec) := []
   scheduled : List Nat := []      -- transactions with a scheduled call (spawn …)
+  tids : List Nat := []           -- every transaction of this session
+  persisted : List (Key × Option Val) := []   -- spec: what was committed before the last reopen
 
 def setCfg (c : SnapCfg) (kv : String) : Option SnapCfg :=
   match kv.splitOn "=" with
@@ -67,6 +70,7 @@ def setCfg (c : SnapCfg) (kv : String) : Option SnapCfg :=
     | "oracle.commitOrder" => if v == "lock,hasConflict,doneRead,cleanup,add,begin,record" then some c else none
     | "oracle.readTsOrder" => if v == "load,last,readBegin,wait" then some c else none
     | "oracle.readTsLocked" => if v == "false" then some c else none
+    | "oracle.markSeed" => if v == "committed" then some { c with seedOff := 0 } else none
     | "wm.advanceShape" => if v == "true" then some c else none
     | _ => none
   | _ => none
@@ -138,7 +142,7 @@ def subsets : List Nat → List (List Nat)
   | x :: xs => let r := subsets xs; r ++ r.map (fun l => x :: l)
 
 /-- value of `k` when exactly the commits `ids` are visible (newest commit timestamp wins) -/
-def valUnder (s : St) (ids : List Nat) (k : Key) : Option Val :=
+def valUnderS (s : St) (ids : List Nat) (k : Key) : Option Val :=
   (ids.foldl (fun (acc : Nat × Option Val) id =>
     match s.thr id with
     | some t =>
@@ -149,11 +153,28 @@ def valUnder (s : St) (ids : List Nat) (k : Key) : Option Val :=
       else acc
     | none => acc) (0, none)).2
 
-def keysUnder (s : St) (ids : List Nat) : List Key :=
+/-- does one of the visible commits of this session write `k`? -/
+def writesKey (s : St) (ids : List Nat) (k : Key) : Bool :=
+  ids.any (fun id =>
+    match s.thr id with
+    | some t => t.commitTs > 0 && (lookupW t.writes k).isSome
+    | none => false)
+
+/-- `pers`: what was committed before the last reopen (key ↦ value, `none` = deleted) -/
+def valUnder (pers : List (Key × Option Val)) (s : St) (ids : List Nat) (k : Key) : Option Val :=
+  if writesKey s ids k then valUnderS s ids k
+  else match pers.find? (fun p => p.1 = k) with
+    | some p => p.2
+    | none => none
+
+def keysUnderS (s : St) (ids : List Nat) : List Key :=
   dedup (ids.foldl (fun acc id =>
     match s.thr id with
     | some t => if t.commitTs > 0 then acc ++ t.writes.map (fun kv => kv.1) else acc
     | none => acc) [])
+
+def keysUnder (pers : List (Key × Option Val)) (s : St) (ids : List Nat) : List Key :=
+  dedup (keysUnderS s ids ++ pers.map (fun p => p.1))
 
 def insertKey (k : Key) : List Key → List Key
   | [] => [k]
@@ -167,12 +188,12 @@ def renderScan (l : List (Key × Val)) : String :=
 def ownVal (t : Txn) (k : Key) : Option (Option Val) := if t.update then lookupW t.writes k else none
 
 /-- the scan a transaction with pending writes `t.writes` must see when `ids` are visible -/
-def scanUnder (s : St) (t : Txn) (ids : List Nat) : String :=
-  let ks := sortKeys (dedup (keysUnder s ids ++ (if t.update then t.writes.map (fun kv => kv.1) else [])))
+def scanUnder (pers : List (Key × Option Val)) (s : St) (t : Txn) (ids : List Nat) : String :=
+  let ks := sortKeys (dedup (keysUnder pers s ids ++ (if t.update then t.writes.map (fun kv => kv.1) else [])))
   renderScan (ks.filterMap (fun k =>
     let v := match ownVal t k with
       | some v => v
-      | none => valUnder s ids k
+      | none => valUnder pers s ids k
     v.map (fun b => (k, b))))
 
 def dedupS (l : List String) : List String :=
@@ -283,8 +304,25 @@ def drain (d : DSt) : DSt × String :=
   let (d, acc) := drainRound d ids acc
   (d, " ".intercalate ("drained" :: acc) ++ " " ++ stateStr d.s ++ "\t*")
 
+def maxTs (st : List Entry) : Nat := st.foldl (fun m e => max m e.ts) 0
+
+/-- `reopen`: Close + Open of the same directory.  Both sides refuse it while a transaction of the
+session is still open.  The model restarts from `seededSt` (the initial state the theorems of
+Props/C05 quantify over) with the recovered versions and their maximum. -/
+def reopen (d : DSt) : DSt × String :=
+  let allDone := d.tids.all (fun id =>
+    match d.s.thr id with
+    | some t => t.pc == .finished
+    | none => true)
+  if !allDone then (d, "unsafe\tunsafe") else
+  let ks := keysUnder d.persisted d.s d.doneOk
+  let pers := ks.map (fun k => (k, valUnder d.persisted d.s d.doneOk k))
+  ({ d with s := seededSt d.c (maxTs d.s.store) d.s.store, committing := [], doneOk := [], specs := [],
+            scheduled := [], tids := [], persisted := pers }, "ok\tok")
+
 def stepOp (d : DSt) (toks : List String) : DSt × String :=
   match toks with
+  | ["reopen"] => reopen d
   | ["drain"] => drain d
   | ["seq"] => (d, "ok\t*")
   | ["sched"] => (d, "ok\t*")
@@ -297,7 +335,7 @@ def stepOp (d : DSt) (toks : List String) : DSt × String :=
       if anyLive d then (d, "unsafe\tunsafe") else
       match Snap.step d.c d.s (.spawn tid (m == "u")) with
       | some s1 =>
-        let d := specBeginCall d tid
+        let d := specBeginCall { d with tids := tid :: d.tids } tid
         let (s2, ok) := runCall d.c s1 tid fuel
         let d := { d with s := s2 }
         if ok then
@@ -321,7 +359,7 @@ def stepOp (d : DSt) (toks : List String) : DSt × String :=
           match ownVal tx key with
           | some v => (d, out ++ "\t" ++ valStr v)
           | none =>
-            let (d, sp) := specAnswer d tid (fun ids => valStr (valUnder d.s ids key)) out
+            let (d, sp) := specAnswer d tid (fun ids => valStr (valUnder d.persisted d.s ids key)) out
             (d, out ++ "\t" ++ sp)
         | none => (d, "bad-op")
     | _, _ => (d, "bad-op")
@@ -337,7 +375,7 @@ def stepOp (d : DSt) (toks : List String) : DSt × String :=
         match Snap.step d.c d.s (.scan tid) with
         | some s' =>
           let d := { d with s := s' }
-          let (d, sp) := specAnswer d tid (fun ids => scanUnder d.s tx ids) out
+          let (d, sp) := specAnswer d tid (fun ids => scanUnder d.persisted d.s tx ids) out
           (d, out ++ "\t" ++ sp)
         | none => (d, "bad-op")
     | none => (d, "bad-op")
@@ -386,7 +424,7 @@ def stepOp (d : DSt) (toks : List String) : DSt × String :=
     match natOf? t with
     | some tid =>
       match Snap.step d.c d.s (.spawn tid (m == "u")) with
-      | some s1 => (specBeginCall { d with s := s1, scheduled := tid :: d.scheduled } tid, "ok\tok")
+      | some s1 => (specBeginCall { d with s := s1, scheduled := tid :: d.scheduled, tids := tid :: d.tids } tid, "ok\tok")
       | none => (d, "bad-op\tbad-op")
     | none => (d, "bad-op")
   | ["spawn", t, "commit"] =>
